@@ -410,6 +410,46 @@ def cache_shape(ctx: Ctx) -> RuleResult:
                       "file, so a restart returns the results of an earlier run (and executes nothing of what it should)", norm_src(oc))
         elif mv is None:
             raise Undecided(f"{f.short}: mode of the cache file is not a constant")
+    # the files are the paths the user gave: no path surgery between cache_in / from_cache and open() (two checkpoints whose paths differ
+    # only in what the surgery removes would be one file), and nothing opens the cache_in path for writing but the writer's own `with`
+    SURGERY = ("with_suffix", "with_name", "with_stem", "splitext", "basename", "lower", "upper", "casefold", "stem", "strip", "rstrip", "replace")
+    n_open = 0
+    for g_ in ctx.funcs():
+        if g_.module.name.endswith("_twzsa_control"):
+            continue
+        for oc in iter_own_nodes(g_.node):
+            if not (isinstance(oc, ast.Call) and dotted(oc.func) in ("open", "io.open") and oc.args):
+                continue
+            pth = oc.args[0]
+            fields = {x.attr for x in ast.walk(pth) if isinstance(x, ast.Attribute) and x.attr in ("cache_in", "from_cache")}
+            if isinstance(pth, ast.Name):
+                for d_ in ctx.reaching_defs(g_, pth.id, oc):
+                    if isinstance(d_, ast.Assign):
+                        fields |= {x.attr for x in ast.walk(d_.value) if isinstance(x, ast.Attribute) and x.attr in ("cache_in", "from_cache")}
+                        pth = d_.value
+            if not fields:
+                continue
+            n_open += 1
+            cut = [x for x in ast.walk(pth) if (isinstance(x, ast.Attribute) and x.attr in SURGERY)
+                   or (isinstance(x, ast.BinOp) and isinstance(x.op, ast.Add))]
+            r.ob(not cut, {"in": g_.short, "cache file opened at": norm_src(pth)[:80]})
+            if cut:
+                r.violate(f"{g_.short}: the cache file is not the path the user gave ({norm_src(pth)[:60]})", g_.loc(oc),
+                          "paths that differ only in the part that is rewritten (`ckpt.stage1` / `ckpt.stage2` under with_suffix) are one "
+                          "file: a later caching run overwrites an earlier checkpoint and a restart reads another run's results", norm_src(oc)[:100])
+            mode_ = oc.args[1] if len(oc.args) > 1 else next((k.value for k in oc.keywords if k.arg == "mode"), None)
+            mv_ = mode_.value if isinstance(mode_, ast.Constant) and isinstance(mode_.value, str) else None
+            writes = mv_ is not None and any(ch in mv_ for ch in "wax+")
+            if writes and "cache_in" in fields:
+                in_writer = g_.qualname == f.qualname and any(
+                    isinstance(w_, (ast.With, ast.AsyncWith)) and any(it.context_expr is oc for it in w_.items)
+                    and any(x is dump for b_ in w_.body for x in ast.walk(b_)) for w_ in iter_own_nodes(g_.node))
+                r.ob(in_writer, {"in": g_.short, "cache_in opened for writing by the writer's own with-block": in_writer})
+                if not in_writer:
+                    r.violate(f"{g_.short}: the cache_in file is opened for writing outside the block that writes the results", g_.loc(oc),
+                              "opening with 'w' truncates: a run that fails afterwards (or never reaches the writer) leaves an empty file "
+                              "where the checkpoint of an earlier run was - the restart has nothing to reuse", norm_src(oc)[:100])
+    r.ob(n_open >= 2, {"open() calls on the cache paths": n_open})
     # the caller passes the results of the run
     post = [g for g, c in ctx.callers_of(f.qualname)]
     r.ob(len(post) >= 1, {"written from": [g.short for g in post]})
